@@ -11,7 +11,7 @@ from ..fx import FX
 from .. import boolx as B
 from .. import q
 from ..rules_stream import (PACKET, fx_of, s2_sampling, s3_counter, s4_hold, fsm_sanity, prio, s5_omit, s6_fork,
-                            fail_closed, short, _lit_set)
+                            fail_closed, short, _lit_set, fsm_txn_state)
 
 EXPLANATION = ("FHDL IR extracted from packet.py; FSM graphs of Packetizer/Depacketizer checked for trap states in "
                "both aligned/unaligned configurations; hold-until-ready and sampling guards by propositional "
@@ -31,6 +31,8 @@ def run(ctx):
                    "from the param FIFO; last from the payload FIFO", min_sites=12)
     ctx.rule("P3", "Status/Arbiter/Dispatcher: request <- ongoing of the same master; connect gated by grant == same "
                    "index; selector latched only on first; default arm drains", min_sites=14)
+    ctx.rule("P4", "per-packet FSM registers (word counter, from-idle marker) are re-initialised in IDLE / on every exit of IDLE: "
+                   "nothing is inherited from the previous packet", min_sites=3)
     ctx.rule("PRIO", "no dead driver", min_sites=4)
 
     # ---- Packetizer / Depacketizer
@@ -42,6 +44,7 @@ def run(ctx):
         s2_sampling(ctx, "S2", fx, cls)
         s4_hold(ctx, "S4", fx, cls, info, [("self.source.valid", "self.source.ready")])
         fsm_sanity(ctx, "S7", fx, cls)
+        fsm_txn_state(ctx, "P4", fx, cls)
         prio(ctx, "PRIO", fx, cls)
         # S3: `count` steps (value count + 1) only on a transferred word of the state
         hs = "self.source.valid & self.source.ready" if cls == "Packetizer" else "self.sink.valid & self.sink.ready"
